@@ -1023,6 +1023,12 @@ impl ExecutionCtx<'_> {
 pub open spec fn fsm_monotone(a: Folds, b: Folds) -> bool {
     forall|k: int| #![trigger a.contains_key(k)] #![trigger b.contains_key(k)] a.contains_key(k) ==> b.contains_key(k) && b[k].pos() >= a[k].pos()
 }
+// ... to the registered fold states: a state is registered once, by `fold`, with its type; afterwards only its iterable's cursor
+// and its back flag change (next.rs) -- a name that stays registered keeps its type (the nested fold that would re-register it
+// is the uncatchable MultipleIterableValues)
+pub open spec fn iters_types_kept(a: Iters, b: Iters) -> bool {
+    forall|k: Chars| #![trigger a.contains_key(k)] #![trigger b.contains_key(k)] a.contains_key(k) && b.contains_key(k) ==> b[k].ty == a[k].ty
+}
 // ... and to the streams: a stream that a (name, position) pair denotes keeps being denoted by it (scopes opened by the child are
 // closed by it: unit control_exec, `balanced`)
 pub open spec fn streams_kept(a: ExecutionCtx, b: ExecutionCtx) -> bool {
@@ -1053,6 +1059,7 @@ impl<'i> Instruction<'i> {
             final(trace_ctx).log@ == old(trace_ctx).log@.push(TEv::Child { id: self.id() }),
             fsm_monotone(old(trace_ctx).folds@, final(trace_ctx).folds@),
             streams_kept(*old(exec_ctx), *final(exec_ctx)),
+            iters_types_kept(old(exec_ctx).iters(), final(exec_ctx).iters()),
     { unimplemented!() }
 }
 
@@ -1552,7 +1559,7 @@ pub open spec fn stream_fold_spec(head: int, c0: ExecutionCtx, c1: ExecutionCtx,
 //@ lift air/src/execution_step/instructions/fold_stream/stream_execute_helpers.rs :: fn execute_with_stream
 //@ props C01 C13
 //@ ret r
-//@ sig 1 "fn execute_with_stream" => "#[verifier::exec_allows_no_decreases_clause] fn execute_with_stream"
+//@ sig 1 "pub(crate) fn execute_with_stream" => "#[verifier::exec_allows_no_decreases_clause] pub fn execute_with_stream"
 //@ sig 1 "get_mut_stream: impl for<'ctx> Fn(&'ctx mut ExecutionCtx<'_>) -> &'ctx mut Stream" => "get_mut_stream: StreamAccessor"
 //@ sig 1 "&impl ToString" => "&impl ToStr"
 //@ rewrite 2 "get_mut_stream(exec_ctx)" => "get_mut_stream.call(exec_ctx)"
@@ -1658,6 +1665,199 @@ impl<'i> ast::FoldStreamMap<'i> {
             iters_wf(final(exec_ctx).iters()),
 //@ end
 }
+
+// ================================================================ next.rs
+pub open spec fn trace_same(t0: TraceHandler, t1: TraceHandler) -> bool { t1 == t0 }
+pub open spec fn fold_fsm_of(t: TraceHandler, ty: IterableType) -> Option<FoldFSM> {
+    match ty { IterableType::Stream(fid) => if t.folds@.contains_key(fid as int) { Some(t.folds@[fid as int]) } else { None }, IterableType::Scalar => None }
+}
+// the three helpers: nothing for a scalar fold; for a stream fold exactly the one trace-handler call, whose error is a TraceError
+//@ lift air/src/execution_step/instructions/next.rs :: fn maybe_meet_iteration_start
+//@ props C01 C13
+//@ ret r
+//@ spec
+    requires fold_state.iterable.vals@.len() > 0, fold_state.iterable.wf(),       // `peek().expect(PEEK_ALLOWED_ON_NON_EMPTY)`
+        fold_fsm_of(*old(trace_ctx), fold_state.iterable_type) matches Some(f) ==> can_start_iteration(f),
+    ensures match fold_state.iterable_type {
+        IterableType::Scalar => r is Ok && *final(trace_ctx) == *old(trace_ctx),
+        IterableType::Stream(fid) => {
+            &&& final(trace_ctx).log@ == old(trace_ctx).log@.push(TEv::IterationStart { id: fid as int,
+                    pos: fold_state.iterable.vals@[fold_state.iterable.cursor@ as int].trace_pos(), ok: r is Ok })
+            &&& others_same(old(trace_ctx).folds@, final(trace_ctx).folds@, fid as int)
+            &&& final(trace_ctx).folds@.contains_key(fid as int) == old(trace_ctx).folds@.contains_key(fid as int)
+            &&& old(trace_ctx).folds@.contains_key(fid as int) ==> fsm_iteration_started(old(trace_ctx).folds@[fid as int], final(trace_ctx).folds@[fid as int], r is Ok)
+            &&& r matches Err(e) ==> is_trace_error(e)
+        }
+    }
+//@ end
+//@ lift air/src/execution_step/instructions/next.rs :: fn maybe_meet_iteration_end
+//@ props C01 C13
+//@ ret r
+//@ spec
+    requires fold_fsm_of(*old(trace_ctx), fold_state.iterable_type) matches Some(f) ==> can_end_iteration(f),
+    ensures match fold_state.iterable_type {
+        IterableType::Scalar => r is Ok && *final(trace_ctx) == *old(trace_ctx),
+        IterableType::Stream(fid) => {
+            &&& final(trace_ctx).log@ == old(trace_ctx).log@.push(TEv::IterationEnd { id: fid as int, ok: r is Ok })
+            &&& others_same(old(trace_ctx).folds@, final(trace_ctx).folds@, fid as int)
+            &&& final(trace_ctx).folds@.contains_key(fid as int) == old(trace_ctx).folds@.contains_key(fid as int)
+            &&& r is Ok <==> old(trace_ctx).folds@.contains_key(fid as int)
+            &&& old(trace_ctx).folds@.contains_key(fid as int) ==> fsm_iteration_ended(old(trace_ctx).folds@[fid as int], final(trace_ctx).folds@[fid as int])
+            &&& r matches Err(e) ==> is_trace_error(e)
+        }
+    }
+//@ end
+//@ lift air/src/execution_step/instructions/next.rs :: fn maybe_meet_back_iterator
+//@ props C01 C13
+//@ ret r
+//@ spec
+    requires fold_fsm_of(*old(trace_ctx), fold_state.iterable_type) matches Some(f) ==> can_go_back(f),
+    ensures match fold_state.iterable_type {
+        IterableType::Scalar => r is Ok && *final(trace_ctx) == *old(trace_ctx),
+        IterableType::Stream(fid) => {
+            &&& final(trace_ctx).log@ == old(trace_ctx).log@.push(TEv::BackIterator { id: fid as int, ok: r is Ok })
+            &&& others_same(old(trace_ctx).folds@, final(trace_ctx).folds@, fid as int)
+            &&& final(trace_ctx).folds@.contains_key(fid as int) == old(trace_ctx).folds@.contains_key(fid as int)
+            &&& old(trace_ctx).folds@.contains_key(fid as int) ==> fsm_went_back(old(trace_ctx).folds@[fid as int], final(trace_ctx).folds@[fid as int], r is Ok)
+            &&& !old(trace_ctx).folds@.contains_key(fid as int) ==> r is Err
+            &&& r matches Err(e) ==> is_trace_error(e)
+        }
+    }
+//@ end
+
+// THE CALL-ORDER ASSUMPTION about where a `next` is executed (what units/fold_fsm.rs calls `can_end_iteration`): if its fold is a
+// stream fold whose FSM the trace handler knows, an iteration of that fold is open and the back traversal has not started --
+// i.e. this is the first `next` reached in the body of the iteration that was started last. The parser enforces "one textual
+// `next` per fold"; it does NOT enforce this (FINDING F13, obligation `Next::execute/any-script`).
+pub open spec fn next_in_order(c: ExecutionCtx, t: TraceHandler, name: Chars) -> bool {
+    c.iters().contains_key(name) ==> (fold_fsm_of(t, c.iters()[name].ty) matches Some(f) ==> can_end_iteration(f))
+}
+pub open spec fn with_iterable(f: FoldAbs, it: IterableDyn) -> FoldAbs { FoldAbs { iterable: it, ..f } }
+pub open spec fn next_spec(next: Next, c0: ExecutionCtx, c1: ExecutionCtx, t0: TraceHandler, t1: TraceHandler, r: ExecutionResult<()>) -> bool {
+    let name = next.iterator.name@;
+    let n = c0.log@.len() as int;
+    if !c0.iters().contains_key(name) {
+        // (b) no fold state under that name: the uncatchable FoldStateNotFound, never a panic; nothing is touched
+        (r matches Err(e) && is_fold_state_not_found(e, name)) && c1 == c0 && t1 == t0
+    } else {
+        let fs = c0.iters()[name];
+        let moved = with_iterable(fs, fs.iterable.after_next());           // the fold state after exactly ONE `next()`
+        let advanced = fs.iterable.cursor@ + 1 < fs.iterable.vals@.len();    // what that `next()` returned
+        let ran = c1.log@[n];
+        &&& t0.log@.is_prefix_of(t1.log@) && c0.log@.is_prefix_of(c1.log@) && c1.log@.len() <= n + 1
+        // whenever a child ran it was entered with the iterable moved by exactly one `next()`
+        &&& c1.log@.len() == n + 1 ==> ran.pre.iters =~= c0.iters().insert(name, moved)
+        &&& (r is Ok && advanced) ==> {
+                // there is a next value: the body of the fold runs once more, between meet_next_before and meet_next_after ...
+                &&& c1.log@.len() == n + 1 && ran.id == fs.head && ran.res is Ok
+                &&& ran.pre.sevs == c0.scalars.evs@.push(SEv::NextBefore) && ran.pre.complete == c0.subgraph_completeness
+                // ... and afterwards the iterable is moved back by exactly one `prev()`
+                &&& ran.post.iters.contains_key(name)
+                &&& c1.iters() =~= ran.post.iters.insert(name, with_iterable(ran.post.iters[name], ran.post.iters[name].iterable.after_prev()))
+                &&& c1.scalars.evs@ == ran.post.sevs.push(SEv::NextAfter) && c1.subgraph_completeness == ran.post.complete
+            }
+        &&& (r is Ok && !advanced) ==> match fs.last {
+                // no next value: the last instruction, if any, runs with the subgraph marked complete
+                Some(l) => c1.log@.len() == n + 1 && ran.id == l && ran.res is Ok && ran.pre.complete && ran.pre.sevs == c0.scalars.evs@
+                    && c1.snap() == ran.post,
+                // none: nothing runs; a stream fold is left incomplete the first time this happens (aquavm issue 333)
+                None => c1.log@.len() == n && c1.scalars.evs@ == c0.scalars.evs@
+                    && c1.iters() =~= c0.iters().insert(name, FoldAbs { back_started: fs.back_started || fs.ty is Stream, ..moved })
+                    && c1.subgraph_completeness == (c0.subgraph_completeness && !(fs.ty is Stream && !fs.back_started)),
+            }
+        // errors: a trace-handler (merge) error, a fold state that vanished during the body, or the child's own error unchanged
+        &&& r matches Err(e) ==> is_trace_error(e) || is_fold_state_not_found(e, name) || (c1.log@.len() == n + 1 && r == ran.res)
+        // a scalar fold does not talk to the trace handler at all
+        &&& fs.ty is Scalar ==> t1.log@ =~= (if c1.log@.len() == n + 1 { t0.log@.push(TEv::Child { id: ran.id }) } else { t0.log@ })
+    }
+}
+
+pub proof fn lemma_abs_insert_same<'i>(m: Map<Chars, FoldState<'i>>, k: Chars)
+    requires m.contains_key(k)
+    ensures m.insert(k, m[k]) =~= m
+{ }
+pub proof fn lemma_iters_wf_insert(m: Iters, k: Chars, f: FoldAbs)
+    requires iters_wf(m), f.iterable.vals@.len() > 0, f.iterable.wf()
+    ensures iters_wf(m.insert(k, f))
+{
+    assert forall|j: Chars| m.insert(k, f).contains_key(j) implies (#[trigger] m.insert(k, f)[j]).iterable.vals@.len() > 0 && m.insert(k, f)[j].iterable.wf() by {
+        if j != k { assert(m.contains_key(j)); assert(m[j].iterable.vals@.len() > 0); }
+    }
+}
+
+// what updating the one entry `k` of the table of fold states does to its abstraction, for every new value at once
+pub proof fn lemma_update_entry<'i>(m: Map<Chars, FoldState<'i>>, k: Chars)
+    requires m.contains_key(k), iters_wf(abs_map(m))
+    ensures
+        forall|f: FoldState<'i>| abs_map(#[trigger] m.insert(k, f)) =~= abs_map(m).insert(k, f.abs()),
+        forall|f: FoldAbs| f.iterable.vals@.len() > 0 && f.iterable.wf() ==> iters_wf(#[trigger] abs_map(m).insert(k, f)),
+        forall|f: FoldAbs| f.ty == abs_map(m)[k].ty ==> iters_types_kept(abs_map(m), #[trigger] abs_map(m).insert(k, f)),
+{
+    assert forall|f: FoldAbs| f.iterable.vals@.len() > 0 && f.iterable.wf() implies iters_wf(#[trigger] abs_map(m).insert(k, f)) by {
+        lemma_iters_wf_insert(abs_map(m), k, f);
+    }
+}
+pub proof fn lemma_types_kept_trans(a: Iters, b: Iters, c: Iters, k: Chars)
+    requires iters_types_kept(a, b), iters_types_kept(b, c), b.contains_key(k) || !a.contains_key(k) || !c.contains_key(k),
+        forall|j: Chars| j != k && a.contains_key(j) && c.contains_key(j) ==> b.contains_key(j)
+    ensures iters_types_kept(a, c)
+{
+    assert forall|j: Chars| #![trigger a.contains_key(j)] #![trigger c.contains_key(j)] a.contains_key(j) && c.contains_key(j) implies c[j].ty == a[j].ty by {
+        assert(b.contains_key(j));
+    }
+}
+
+impl<'i> Next<'i> {
+// C01 + C13 under the call-order assumption `next_in_order`
+//@ lift air/src/execution_step/instructions/next.rs :: impl<'i> super::ExecutableInstruction<'i> for Next<'i> :: fn execute
+//@ name Next::execute
+//@ props C01 C13
+//@ ret r
+//@ after #0 "let fold_state = exec_ctx.scalars.get_iterable_mut(iterator_name)?;"
+        proof { lemma_update_entry(old(exec_ctx).scalars.iterables@, self.iterator.name@); }
+//@ before "let next_instr = fold_state.instr_head.clone();"
+        let ghost t_mid = *trace_ctx;
+//@ spec
+        requires iters_wf(old(exec_ctx).iters()), next_in_order(*old(exec_ctx), *old(trace_ctx), self.iterator.name@)
+        ensures next_spec(*self, *old(exec_ctx), *final(exec_ctx), *old(trace_ctx), *final(trace_ctx), r),
+            // what every instruction must leave intact (assumed of the body, proved here)
+            iters_wf(final(exec_ctx).iters()), iters_types_kept(old(exec_ctx).iters(), final(exec_ctx).iters()),
+            fsm_monotone(old(trace_ctx).folds@, final(trace_ctx).folds@), streams_kept(*old(exec_ctx), *final(exec_ctx)),
+//@ end
+
+// C01 for ANY script: no call-order assumption. FAILS at `trace_ctx.meet_iteration_end` (can_end_iteration) and at the
+// `trace_ctx.meet_back_iterator` calls (can_go_back): FINDING F13, a reachable panic (see the header and
+// replay/pending_instr_findings_end_to_end.rs).
+// (no canary of its own: same body as the obligation above, weaker precondition)
+//@ lift air/src/execution_step/instructions/next.rs :: impl<'i> super::ExecutableInstruction<'i> for Next<'i> :: fn execute
+//@ name Next::execute/any-script
+//@ props C01
+//@ ret r
+//@ after #0 "let fold_state = exec_ctx.scalars.get_iterable_mut(iterator_name)?;"
+        proof { lemma_update_entry(old(exec_ctx).scalars.iterables@, self.iterator.name@); }
+//@ before "let next_instr = fold_state.instr_head.clone();"
+        let ghost t_mid = *trace_ctx;
+//@ sig 1 "fn execute" => "fn execute__any_script"
+//@ no-canary
+//@ spec
+        requires iters_wf(old(exec_ctx).iters())
+        ensures iters_wf(final(exec_ctx).iters())
+//@ end
+}
+
+// the link that makes `next_in_order` hold in the honest order: right after a successful meet_iteration_start -- the one
+// execute_iterations makes before the body of a generation's first value, and the one `next` makes before the body of the next
+// value -- the fold's FSM is exactly where the body's `next` needs it; after that `next`'s meet_iteration_end a further iteration
+// can start, and the turn-round can be made
+//@ lemma iteration_start_opens_iteration props C13 C01
+proof fn iteration_start_opens_iteration(f0: FoldFSM, f1: FoldFSM, f2: FoldFSM)
+    requires can_start_iteration(f0), fsm_iteration_started(f0, f1, true), fsm_iteration_ended(f1, f2),
+        f0.pos() == f0.q().len(),          // forward phase: the cursor is at the end of the queue (fsm_fresh; kept by both transitions)
+    ensures can_end_iteration(f1), can_start_iteration(f2), can_go_back(f2), f1.pos() == f1.q().len(), f2.pos() == f2.q().len()
+{
+    assert(f1.q().last() == f1.q()[f1.pos() - 1]);
+}
+//@ end
 
 } // verus!
 fn main() {}
